@@ -251,11 +251,14 @@ fn values_part(plan: &Plan) -> RunResult {
             }
             6 => {
                 let url_len = *rng.pick(&[0usize, 1, 20, 200]);
-                let url: String = (0..url_len).map(|_| (b'a' + rng.below(26) as u8) as char).collect();
+                // (a third of the urls / names contain characters that take more than one byte in UTF-8)
+                let wide = rng.chance(1, 3);
+                const WIDE: [char; 6] = ['ü', 'œ', 'ß', '漢', 'é', '𝛑'];
+                let url: String = (0..url_len).map(|i| if wide && i % 5 == 2 { WIDE[rng.usize_below(WIDE.len())] } else { (b'a' + rng.below(26) as u8) as char }).collect();
                 let special = rng.chance(1, 10);
                 let ns = rng.below(5);
                 let services: Vec<PeerService> = (0..ns)
-                    .map(|k| PeerService { service: if special && k == 0 { "a|b".to_string() } else { format!("svc{}", k) }, domain: if rng.chance(1, 3) { String::new() } else { "dom".into() }, name: format!("n{}", rng.below(100)) })
+                    .map(|k| PeerService { service: if special && k == 0 { "a|b".to_string() } else { format!("svc{}", k) }, domain: if rng.chance(1, 3) { String::new() } else if wide { "dömäin".into() } else { "dom".into() }, name: format!("n{}", rng.below(100)) })
                     .collect();
                 let resp = HandshakeResponse {
                     public_key: rng.pick(&keys).pk,
